@@ -202,3 +202,19 @@ Fixpoint tree_mismatch (t : gtree) (s : st) (i : Z) {struct t} : Z * option (Z *
           else (i, Some (i, Some (pack_obs (obs s' o))))
       end
   end.
+
+(* histories on the real Tub/Broker stack: what the Reconnector did to its environment is not recorded there, so
+   only the state part of the observation (flags below 4096, _delay, timer) is compared *)
+Definition obs_match_state (m p : Z * Z * Z) : bool :=
+  match m, p with (mf, md, mt), (pf, pd, pt) =>
+    (mf mod 4096 =? pf mod 4096) && close_ns md pd && (if pt =? -1 then mt =? -1 else negb (mt =? -1) && close_ns mt pt) end.
+Fixpoint group_mismatch_state (i : Z) (s : st) (gs : list (list event * (Z * Z * Z))) : Z * option (Z * Z * Z) :=
+  match gs with
+  | [] => (-1, None)
+  | (evs, p) :: r =>
+      match run_enabled s evs with
+      | None => (i, None)
+      | Some (s', o) => if obs_match_state (pack_obs (obs s' o)) p then group_mismatch_state (i + 1) s' r
+                        else (i, Some (pack_obs (obs s' o)))
+      end
+  end.
